@@ -435,10 +435,25 @@ func runStream(w *harness.W, sc streamCase, r gen.R) (violKey string) {
 			keys[i] = byte('a' + i%26)
 		}
 		sess.Con.Inject(keys)
-		for k := 0; k < 20000 && sess.Con.PendingInput() > 0; k++ {
-			time.Sleep(100 * time.Microsecond)
+		// wait until the queue is full and the input goroutine is waiting to
+		// deliver the last key (goroutine dump), so that nothing is still on
+		// its way through the parser when the application suspends
+		inHand := false
+		for k := 0; k < 500 && !inHand; k++ {
+			time.Sleep(10 * time.Millisecond)
+			if sess.Con.PendingInput() > 0 || len(sess.Vx.Events()) < sc.Queue {
+				continue
+			}
+			for _, blk := range strings.Split(harness.AllStacks(), "\n\n") {
+				if strings.Contains(blk, "vaxis.(*Vaxis).PostEventBlocking") && strings.Contains(blk, "[chan send") {
+					inHand = true
+				}
+			}
 		}
-		time.Sleep(20 * time.Millisecond)
+		if !inHand {
+			w.Inconclusive("input-goroutine-never-reached-the-full-queue")
+			return ""
+		}
 		srDone := make(chan struct{})
 		go func() {
 			defer close(srDone)
@@ -502,6 +517,12 @@ func runStream(w *harness.W, sc streamCase, r gen.R) (violKey string) {
 		for _, c := range sc.Chunks {
 			if off+c > len(data) {
 				c = len(data) - off
+			}
+			// a write never ends right after an ESC: on a loaded machine
+			// the pause before the next write can exceed the 10 ms after
+			// which a lone ESC is, legitimately, the Escape key (C08)
+			for off+c < len(data) && c > 0 && data[off+c-1] == 0x1b {
+				c++
 			}
 			sess.Con.Inject(data[off : off+c])
 			off += c
@@ -670,7 +691,7 @@ type queryCase struct {
 func runQuery(w *harness.W, r gen.R) {
 	qc := queryCase{Caps: 0x1ffff &^ (1 << 3), Keys: r.Intn(30)}
 	qc.Query = []string{"cursor", "cursor", "bg", "fg", "color", "clipboard"}[r.Intn(6)]
-	qc.Timing = []string{"in-time", "in-time", "late", "never"}[r.Intn(4)]
+	qc.Timing = []string{"in-time", "early", "late", "never"}[r.Intn(4)]
 	if qc.Query != "cursor" && qc.Query != "clipboard" && qc.Timing == "never" {
 		qc.Timing = "in-time" // colour queries block by contract until answered
 	}
@@ -722,6 +743,19 @@ func runQuery(w *harness.W, r gen.R) {
 	}
 	held := make(chan []byte, 8)
 	switch qc.Timing {
+	case "early":
+		// the terminal has answered (and the answer is parsed) while the
+		// caller is still inside its write of the query
+		sess.Con.With(func() {
+			sess.Con.PostWriteDelay = func(p []byte) time.Duration {
+				for _, q := range []string{"\x1b[6n", "\x1b]10;?", "\x1b]11;?", "\x1b]4;", "\x1b]52;"} {
+					if strings.Contains(string(p), q) {
+						return 15 * time.Millisecond
+					}
+				}
+				return 0
+			}
+		})
 	case "never":
 		sess.Con.With(func() { sess.Con.ReplyFilter = func(rep []byte) []byte { return nil } })
 	case "late":
@@ -803,7 +837,7 @@ func runQuery(w *harness.W, r gen.R) {
 	switch qc.Query {
 	case "cursor":
 		want = []string{fmt.Sprintf("%d,%d", wantRow, wantCol)}
-		if qc.Timing != "in-time" {
+		if qc.Timing != "in-time" && qc.Timing != "early" {
 			want = []string{"-1,-1"}
 		} else {
 			want = append(want, "-1,-1") // the 50ms deadline may pass on a loaded machine
